@@ -57,7 +57,7 @@ Proof.
   - unfold merge_ok. cbn [g_next g_merge g_merge_size]. 
     split; [rewrite app_length; cbn [length]; lia|]. split; [now apply forall_snoc|]. split; [now rewrite total_size_snoc|exact Hlt].
   - rewrite rtmp_loop_spec.
-    set (tr := anytrig (g_rtmp_cache s) (is_video_key_nalu m) (g_subs s)).
+    set (tr := anytrig (g_rtmp_cache s) (is_video_key_nalu m) (is_hdr_msg m) (LC (g_next s)) (g_subs s)).
     set (merge1 := if tr then [] else g_merge s).
     assert (Hm1 : Forall (fun x => exists i, x = LC i /\ (i < length ms)%nat) merge1)
       by (unfold merge1; destruct tr; [constructor|exact Hall]).
